@@ -6,6 +6,7 @@ package main
 import (
 	"bufio"
 	"bytes"
+	"crypto/sha1"
 	"fmt"
 	"io"
 	"net/url"
@@ -252,6 +253,55 @@ func producers() []func() (produced, error) {
 			})
 		}
 	}
+	// messages beyond what the helpers reserve up front (1 MiB), whole and fragmented; shown by length and digest
+	digest := func(op ws.OpCode, b []byte) string {
+		// the first 8 KiB, the last 8 KiB and every 509th byte in between
+		h := sha1.New()
+		if len(b) > 16384 {
+			h.Write(b[:8192])
+			for i := 8192; i < len(b)-8192; i += 509 {
+				h.Write(b[i : i+1])
+			}
+			h.Write(b[len(b)-8192:])
+		} else {
+			h.Write(b)
+		}
+		return fmt.Sprintf("%x:%d bytes digest=%x", byte(op), len(b), h.Sum(nil))
+	}
+	for _, n := range []int{1<<20 + 5} {
+		for _, frags := range []int{1, 3} {
+			for _, side := range []ws.State{ws.StateServerSide, ws.StateClientSide} {
+				n, frags, side := n, frags, side
+				body := make([]byte, n)
+				for i := range body {
+					body[i] = byte(i*11 + i>>12 + n)
+				}
+				var wire []byte
+				for k := 0; k < frags; k++ {
+					op := byte(0)
+					if k == 0 {
+						op = 2
+					}
+					wire = append(wire, refmodel.Frame{H: refmodel.Hdr{Fin: k == frags-1, Op: op, Masked: side.ServerSide(), Mask: [4]byte{9, 9, 1, 1}}, Payload: body[k*n/frags : (k+1)*n/frags]}.Wire()...)
+				}
+				out = append(out, func() (produced, error) {
+					ms, err := wsutil.ReadMessage(bytes.NewReader(wire), side, nil)
+					if len(ms) != 1 {
+						return produced{}, fmt.Errorf("%d messages, err=%v", len(ms), err)
+					}
+					// the caller keeps the payload; the message slice itself may go back in as m[:0]
+					kept, op := ms[0].Payload, ms[0].OpCode
+					return produced{name: fmt.Sprintf("ReadMessage/state%d/len%d/fragments%d", side, n, frags), expect: digest(ws.OpBinary, body), msgs: ms, live: func() string {
+						return digest(op, kept)
+					}}, err
+				})
+				out = append(out, func() (produced, error) {
+					p, op, err := wsutil.ReadData(env.RW{Reader: bytes.NewReader(wire), Writer: env.NewDst()}, side)
+					return produced{name: fmt.Sprintf("ReadData/state%d/len%d/fragments%d", side, n, frags), expect: digest(ws.OpBinary, body), live: func() string { return digest(op, p) }}, err
+				})
+			}
+		}
+	}
 	return out
 }
 
@@ -315,6 +365,23 @@ func recyclers() []recycler {
 			if p.br != nil {
 				ws.PutReader(p.br)
 				p.br = nil
+			}
+		}},
+		{"ReadMessage/ReadData-of-fragmented-and-large-messages", func(*produced) {
+			for _, n := range []int{300, 5000} {
+				for _, frags := range []int{2, 1} {
+					var wire []byte
+					for k := 0; k < frags; k++ {
+						op := byte(0)
+						if k == 0 {
+							op = 1
+						}
+						wire = append(wire, refmodel.Frame{H: refmodel.Hdr{Fin: k == frags-1, Op: op}, Payload: bytes.Repeat([]byte{'f'}, n/frags)}.Wire()...)
+					}
+					wsutil.ReadMessage(bytes.NewReader(wire), ws.StateClientSide, nil)
+					wsutil.ReadServerMessage(bytes.NewReader(wire), nil)
+					wsutil.ReadServerData(env.RW{Reader: bytes.NewReader(wire), Writer: env.NewDst()})
+				}
 			}
 		}},
 		{"ReadMessage-into-recycled-slice", func(p *produced) {
